@@ -72,7 +72,7 @@ theorem C13_compose_spec (d : Doc) {q p : Ast} (hq : PathPF q) (hp : RelPF p) (c
 path `q` addresses exactly the node `n`, then the plan `build` makes of the relative path `p`,
 started at `n`, and the plan it makes of `q/p`, started at the root, both succeed and select the
 same node set.  Hypotheses: well-formed document, navigator exposing namespace URIs,
-NoFnvCollision. -/
+`HashInj` (node keys are injective: a theorem, `PathSem.hashInj_holds` — see the `_unconditional` corollary). -/
 theorem C13_relative_compose {d : Doc} (wf : WF d) (cfg : ECfg) (hns : cfg.nsIface = true)
     (hinj : HashInj d cfg) (regexOk : RegexOk) (limit : Nat) (sdf : Bool)
     {q p : Ast} (hq : PathPF q) (hp : RelPF p) (n : Ref)
@@ -83,6 +83,20 @@ theorem C13_relative_compose {d : Doc} (wf : WF d) (cfg : ECfg) (hns : cfg.nsIfa
     ∃ o1 o2, sel (F := F) d cfg o.q n = .ok o1 ∧ sel (F := F) d cfg o'.q (.node 0) = .ok o2 ∧
       ∀ x, x ∈ refs o1 ↔ x ∈ refs o2 :=
   rel_compose_build wf cfg hns hinj regexOk limit sdf hq hp n h st st' o o' hb hb'
+
+/-- `C13_relative_compose` without the `HashInj` hypothesis (it is a theorem now: `hashInj_holds`; the side
+condition left is "no element has two attributes with the same prefix, name and value") -/
+theorem C13_relative_compose_unconditional {d : Doc} (wf : WF d) (cfg : ECfg) (hns : cfg.nsIface = true)
+    (hattr : AttrTriplesDistinct d) (regexOk : RegexOk) (limit : Nat) (sdf : Bool)
+    {q p : Ast} (hq : PathPF q) (hp : RelPF p) (n : Ref)
+    (h : nodesOf (Spec.eval (F := F) d q ⟨.node 0, 1, 1⟩) = [n])
+    (st st' : BState) (o o' : BOut)
+    (hb : build regexOk limit true sdf p {} st = .ok o)
+    (hb' : build regexOk limit true sdf (appendPath q p) {} st' = .ok o') :
+    ∃ o1 o2, sel (F := F) d cfg o.q n = .ok o1 ∧ sel (F := F) d cfg o'.q (.node 0) = .ok o2 ∧
+      ∀ x, x ∈ refs o1 ↔ x ∈ refs o2 :=
+  C13_relative_compose wf cfg hns (PathSem.hashInj_holds wf hattr cfg) regexOk limit sdf hq hp n h
+    st st' o o' hb hb'
 
 /-- … and on the oracle side the two node *lists* are equal (both in document order) -/
 theorem C13_relative_compose_spec (d : Doc) {q p : Ast} (hq : PathPF q) (hp : RelPF p) (c : Spec.Ctx) (n : Ref)
@@ -121,6 +135,16 @@ theorem C13_wrap_union_self {d : Doc} (wf : WF d) (cfg : ECfg) (hns : cfg.nsIfac
       (∀ x, x ∈ ns ↔ x ∈ nodesOf (Spec.eval (F := F) d p ⟨c, 1, 1⟩)) :=
   union_self_path wf cfg hns hinj hp c hc
 
+/-- `C13_wrap_union_self` without the `HashInj` hypothesis (it is a theorem now: `hashInj_holds`; the side
+condition left is "no element has two attributes with the same prefix, name and value") -/
+theorem C13_wrap_union_self_unconditional {d : Doc} (wf : WF d) (cfg : ECfg) (hns : cfg.nsIface = true)
+    (hattr : AttrTriplesDistinct d) {p : Ast} (hp : PathPF p) (c : Ref) (hc : validRef d c = true) :
+    ∃ out ns, sel (F := F) d cfg (.union (naivePlan p) (naivePlan p)) c = .ok out ∧
+      Spec.eval (F := F) d (.oper "|" p p) ⟨c, 1, 1⟩ = .ok (.val (.nodes ns) none) ∧
+      (∀ x, x ∈ refs out ↔ x ∈ ns) ∧ (refs out).Nodup ∧
+      (∀ x, x ∈ ns ↔ x ∈ nodesOf (Spec.eval (F := F) d p ⟨c, 1, 1⟩)) :=
+  C13_wrap_union_self wf cfg hns (PathSem.hashInj_holds wf hattr cfg) hp c hc
+
 /-- **wrapper `not(not(P))` = `boolean(P)`** at plan level whenever `P` evaluates to a node-set, a
 boolean, or fails (the arguments C07/C13 quantify over) -/
 theorem C13_wrap_not_not (d : Doc) (cfg : ECfg) (fi₁ fi₂ fi₃ : Plan) (P : Plan) (c : Ref)
@@ -156,6 +180,21 @@ theorem C13_relative_compose_with_predicates {d : Doc} (wf : WF d) (cfg : ECfg) 
     ∃ o1 o2, sel (F := F) d cfg o.q n = .ok o1 ∧ sel (F := F) d cfg o'.q (.node 0) = .ok o2 ∧
       ∀ x, x ∈ refs o1 ↔ x ∈ refs o2 :=
   rel_compose_build2 wf cfg hns hinj regexOk limit hq hp n h st st' o o' hb hb'
+
+open XPathV.PredSem XPathV.Compose2 in
+/-- `C13_relative_compose_with_predicates` without the `HashInj` hypothesis (it is a theorem now: `hashInj_holds`; the side
+condition left is "no element has two attributes with the same prefix, name and value") -/
+theorem C13_relative_compose_with_predicates_unconditional {d : Doc} (wf : WF d) (cfg : ECfg) (hns : cfg.nsIface = true)
+    (hattr : AttrTriplesDistinct d) (regexOk : RegexOk) (limit : Nat)
+    {q p : Ast} (hq : Frag true q) (hp : RelFrag p) (n : Ref)
+    (h : nodesOf (Spec.eval (F := F) d q ⟨.node 0, 1, 1⟩) = [n])
+    (st st' : BState) (o o' : BOut)
+    (hb : build regexOk limit true false p {} st = .ok o)
+    (hb' : build regexOk limit true false (appendPath2 q p) {} st' = .ok o') :
+    ∃ o1 o2, sel (F := F) d cfg o.q n = .ok o1 ∧ sel (F := F) d cfg o'.q (.node 0) = .ok o2 ∧
+      ∀ x, x ∈ refs o1 ↔ x ∈ refs o2 :=
+  C13_relative_compose_with_predicates wf cfg hns (PathSem.hashInj_holds wf hattr cfg) regexOk limit
+    hq hp n h st st' o o' hb hb'
 
 open XPathV.PredSem XPathV.Compose2 in
 /-- the oracle-side composition law on the fragment with predicates (no assumption at all) -/
